@@ -65,8 +65,15 @@ func brokersubVariants(tier string) []vsched.Variant {
 		{ops: []string{"a.close", "b.unsub,sleep1000,b.sub"}, presubA: true, presubB: true},
 	}
 	if tier == "quick" {
-		for _, c := range quick {
-			add(c, 1, 2, 40)
+		for i, c := range quick {
+			// the delayed job is a background (housekeeping) thread: waking it ahead of a foreground
+			// operation costs one deviation and preempting it inside its critical decision another,
+			// so the scenarios that place an operation on the job's wake-up instant get bound 2
+			if i == 0 || i == 1 || i == 6 {
+				add(c, 2, 2, 60)
+			} else {
+				add(c, 1, 2, 40)
+			}
 		}
 		return out
 	}
